@@ -72,4 +72,15 @@ func d7ok(r req, xs []string) []string { // guarded on both sides: not reported
 	return nil
 }
 
-var _ = []interface{}{d6, d1, d2, d3, d5, d7, d7ok, (*comp).use, (*comp).checked}
+func d8(ref []byte) [32]byte { // D8: a short ref panics
+	return [32]byte(ref)
+}
+
+func d8ok(ref []byte) [32]byte { // guarded: not reported
+	if len(ref) != 32 {
+		return [32]byte{}
+	}
+	return [32]byte(ref)
+}
+
+var _ = []interface{}{d8, d8ok, d6, d1, d2, d3, d5, d7, d7ok, (*comp).use, (*comp).checked}
